@@ -137,3 +137,38 @@ Print Assumptions C12_pk_select.
 Theorem C12_row_collector_grows : forall limit (r : row), grows (list row) lext (collect_hrow limit r).
 Proof. exact collect_hrow_grows. Qed.
 Print Assumptions C12_row_collector_grows.
+
+(* ---- end to end, from the bytes of the file alone (Model/E2E.v): the schema record is not given but read through the
+   same faulty pager - sqlite_master, the SQL texts, the tokenizer, the translated parser, newSchema - and then the
+   operation runs.  Same statement: the fault-free outcome, or a failure after a prefix of the fault-free rows. *)
+From SQ Require Import Model.E2E.
+Theorem C12_e2e_select : forall pg' pg op' op npages, (forall n, le_res (pg' n) (pg n)) -> (forall n, le_res (op' n) (op n)) ->
+  forall S (ext : S -> S -> Prop), (forall s, ext s s) -> (forall a b c, ext a b -> ext b c -> ext a c) ->
+  forall cb, (forall r, grows S ext (cb r)) -> forall table columns s,
+  out_le S ext (e_select pg' op' npages S cb table columns s) (e_select pg op npages S cb table columns s).
+Proof. exact e_select_fault. Qed.
+Print Assumptions C12_e2e_select.
+Theorem C12_e2e_select_rowid : forall pg' pg op' op npages, (forall n, le_res (pg' n) (pg n)) -> (forall n, le_res (op' n) (op n)) ->
+  forall S (ext : S -> S -> Prop), (forall s, ext s s) ->
+  forall cb, (forall r, grows S ext (cb r)) -> forall table rowid columns s,
+  out_le S ext (e_select_rowid pg' op' npages S cb table rowid columns s) (e_select_rowid pg op npages S cb table rowid columns s).
+Proof. exact e_select_rowid_fault. Qed.
+Print Assumptions C12_e2e_select_rowid.
+Theorem C12_e2e_indexed_select : forall pg' pg op' op npages, (forall n, le_res (pg' n) (pg n)) -> (forall n, le_res (op' n) (op n)) ->
+  forall S (ext : S -> S -> Prop), (forall s, ext s s) -> (forall a b c, ext a b -> ext b c -> ext a c) ->
+  forall cb, (forall r, grows S ext (cb r)) -> forall table iname columns s,
+  out_le S ext (e_indexed_select pg' op' npages S cb table iname columns s) (e_indexed_select pg op npages S cb table iname columns s).
+Proof. exact e_indexed_select_fault. Qed.
+Print Assumptions C12_e2e_indexed_select.
+Theorem C12_e2e_indexed_select_eq : forall pg' pg op' op npages, (forall n, le_res (pg' n) (pg n)) -> (forall n, le_res (op' n) (op n)) ->
+  forall S (ext : S -> S -> Prop), (forall s, ext s s) -> (forall a b c, ext a b -> ext b c -> ext a c) ->
+  forall cb, (forall r, grows S ext (cb r)) -> forall table iname k columns s,
+  out_le S ext (e_indexed_select_eq pg' op' npages S cb table iname k columns s) (e_indexed_select_eq pg op npages S cb table iname k columns s).
+Proof. exact e_indexed_select_eq_fault. Qed.
+Print Assumptions C12_e2e_indexed_select_eq.
+Theorem C12_e2e_pk_select : forall pg' pg op' op npages, (forall n, le_res (pg' n) (pg n)) -> (forall n, le_res (op' n) (op n)) ->
+  forall S (ext : S -> S -> Prop), (forall s, ext s s) -> (forall a b c, ext a b -> ext b c -> ext a c) ->
+  forall cb, (forall r, grows S ext (cb r)) -> forall table k columns s,
+  out_le S ext (e_pk_select pg' op' npages S cb table k columns s) (e_pk_select pg op npages S cb table k columns s).
+Proof. exact e_pk_select_fault. Qed.
+Print Assumptions C12_e2e_pk_select.
